@@ -55,6 +55,10 @@ fn main() {
             let line = h.join().unwrap_or_else(|_| "PANIC".to_string());
             println!("{}", line);
         }
+        "c18pairsolo" => {
+            let t: usize = args.get(2).and_then(|x| x.parse().ok()).unwrap_or(0);
+            checks::c18::pair_solo_main(t);
+        }
         "selftest" => {
             std::process::exit(selftest::run(&ucd));
         }
